@@ -65,7 +65,8 @@ def load_contracts():
 def owned(prop, o):
     safety = o.kind in symex.SAFETY_KINDS
     if prop == 'C09':
-        return safety
+        c = getattr(o, 'contract', None)
+        return safety or (c is not None and 'C09' in c.props)
     return not safety
 
 
